@@ -460,6 +460,10 @@ plist_scalars = st.one_of(st.booleans(), st.integers(-3, 12), st.sampled_from(['
 @st.composite
 def plist_cases(draw, max_leaves=8):
     a, b = draw(doc_pairs(max_leaves, 4, plist_scalars))
+    if draw(st.integers(0, 4)) == 0:
+        # a property list whose root is a single scalar: the wrapper's edit then holds a leaf edit directly
+        words = st.sampled_from(['kitten', 'sitting', 'abc', 'abd', 'xyzxyz', 'a', '', 'mitten'])
+        a, b = draw(st.one_of(words, st.integers(0, 3), st.booleans())), draw(st.one_of(words, words, st.integers(0, 3)))
     ds, le = draw(options)
     return {'family': 'plist', 'a': a, 'b': b, 'ds': ds, 'le': le}
 
